@@ -337,3 +337,106 @@ Proof.
   rewrite forallb_forall in H. specialize (H _ Hin). cbn in H. rewrite Hopt in H.
   apply andb_prop in H. destruct H as [Hg _]. split; [exact Hg|]. destruct c; reflexivity.
 Qed.
+
+(* ------------------------------------------------------------------ 7. a runner state over a history of Loads *)
+(* ruleguard.NewRunnerState may be called at any point of an engine's life, before or between Loads. The state's evaluation
+   environment is made of COPIES of the engine's function tables (slice headers: GetEvalEnv); a Load appends to the engine's
+   tables, and compiled code calls a function by its index there. A state therefore SEES as many functions as there were when
+   its tables were last copied.
+
+   The table: function i calls the functions whose indexes are listed in the i-th entry. *)
+Definition ftable := list (list nat).
+
+Inductive hop :=
+| HLoad (fs : list (list nat))     (* Load: the functions of a rules file are appended *)
+| HNew                             (* NewRunnerState *)
+| HRun (st : option nat).          (* Run without a state / with the st-th state created so far *)
+
+(* every call of the loaded code through a view of n functions *)
+Definition view_ok (tab : ftable) (n : nat) : bool := forallb (forallb (fun i => Nat.ltb i n)) tab.
+
+Definition run_view (tab : ftable) (n : nat) : outcome unit := if view_ok tab n then Ok tt else Panic PIndex.
+
+(* the compiler resolves a call to a function of the table as it is after the file's own functions were added *)
+Definition wf_load (tab : ftable) (fs : list (list nat)) : bool :=
+  forallb (forallb (fun i => Nat.ltb i (List.length tab + List.length fs))) fs.
+
+Fixpoint wf_ops (tab : ftable) (ops : list hop) : bool :=
+  match ops with
+  | [] => true
+  | HLoad fs :: r => wf_load tab fs && wf_ops (tab ++ fs)%list r
+  | _ :: r => wf_ops tab r
+  end.
+
+(* refresh: a GIVEN state has its tables copied again before it is used (newRulesRunner: UpdateEvalEnv).
+   states: what every state created so far sees *)
+Fixpoint exec (refresh : bool) (tab : ftable) (states : list nat) (ops : list hop) : outcome unit :=
+  match ops with
+  | [] => Ok tt
+  | HLoad fs :: r => exec refresh (tab ++ fs)%list states r
+  | HNew :: r => exec refresh tab (states ++ [List.length tab])%list r
+  | HRun None :: r => match run_view tab (List.length tab) with Ok _ => exec refresh tab states r | p => p end
+  | HRun (Some k) :: r =>
+      match nth_error states k with
+      | None => exec refresh tab states r        (* no such state: not a step of a history *)
+      | Some seen =>
+          match run_view tab (if refresh then List.length tab else seen) with Ok _ => exec refresh tab states r | p => p end
+      end
+  end.
+
+Lemma view_ok_app tab fs : view_ok tab (List.length tab) = true -> wf_load tab fs = true ->
+  view_ok (tab ++ fs)%list (List.length (tab ++ fs)%list) = true.
+Proof.
+  unfold view_ok, wf_load. intros Ht Hf. rewrite app_length, forallb_app. apply andb_true_intro. split; [|exact Hf].
+  rewrite forallb_forall in Ht |- *. intros f Hin. specialize (Ht f Hin).
+  rewrite forallb_forall in Ht |- *. intros i Hi. specialize (Ht i Hi).
+  apply Nat.ltb_lt in Ht. apply Nat.ltb_lt. lia.
+Qed.
+
+(* with the refresh: every run of every history is total -- whenever the states were created, in whatever order the files
+   were loaded, however often a state is used *)
+Theorem given_state_run_total ops : forall tab states,
+  view_ok tab (List.length tab) = true -> wf_ops tab ops = true -> exec true tab states ops = Ok tt.
+Proof.
+  induction ops as [|op r IH]; intros tab states Hc Hw; [reflexivity|].
+  destruct op as [fs| |[k|]]; cbn [exec wf_ops] in *.
+  - apply andb_prop in Hw as [H1 H2]. apply IH; [now apply view_ok_app|exact H2].
+  - now apply IH.
+  - destruct (nth_error states k); [|now apply IH]. unfold run_view. rewrite Hc. now apply IH.
+  - unfold run_view. rewrite Hc. now apply IH.
+Qed.
+
+(* without it: a state created before a Load whose code calls one of its own helpers runs out of the table it sees *)
+Theorem stale_state_crashes :
+  wf_ops [] [HNew; HLoad [[1]; []]; HRun (Some 0)] = true /\
+  exec false [] [] [HNew; HLoad [[1]; []]; HRun (Some 0)] = Panic PIndex /\
+  exec false [] [] [HLoad [[]]; HNew; HLoad [[2]; []]; HRun (Some 0)] = Panic PIndex /\
+  exec false [] [] [HNew; HLoad [[1]; []]; HNew; HRun None; HRun (Some 1)] = Ok tt.
+Proof. vm_compute. repeat split. Qed.
+
+(* the regenerated facts (go2coq filtertotal2, filters_reuse.go): which tables GetEvalEnv copies and UpdateEvalEnv copies again,
+   what Reset resets, where a new state's environment comes from, and what newRulesRunner does with a state it is given *)
+Definition doc_given_state_calls (var : string) : list string := [var ++ ".Reset()"; "state.env.UpdateEvalEnv(" ++ var ++ ".evalEnv)"].
+Definition doc_state_reset : list string := ["state.nodePath.stack = state.nodePath.stack[:0]"; "state.evalEnv.Stack.Reset()"].
+
+Fixpoint list_eqb (a b : list string) : bool :=
+  match a, b with
+  | [], [] => true
+  | x :: a', y :: b' => String.eqb x y && list_eqb a' b'
+  | _, _ => false
+  end.
+
+Definition state_reuse_okb (copied refreshed reset : list string) (evalenv_from var : string) (given : list string) : bool :=
+  negb (match copied with [] => true | _ => false end) &&
+  forallb (fun f => mem f refreshed) copied &&
+  list_eqb reset doc_state_reset && String.eqb evalenv_from "es.env.GetEvalEnv()" &&
+  list_eqb given (doc_given_state_calls var).
+
+(* the obligation is what makes [refresh] true *)
+Theorem state_reuse_total copied refreshed reset from var given ops :
+  wf_ops [] ops = true ->
+  exec (state_reuse_okb copied refreshed reset from var given) [] [] ops = Ok tt \/ state_reuse_okb copied refreshed reset from var given = false.
+Proof.
+  intros Hw. destruct (state_reuse_okb copied refreshed reset from var given); [left|now right].
+  now apply given_state_run_total.
+Qed.
